@@ -1,12 +1,12 @@
 \* C07 reflection about the domain centre with a halo (odd retained mode counts) -- thorough
 CONSTANTS
   ShiftStyle = "pad" LevelStyle = "match" TruncStyle = "exact" AnalyticStyle = "outer" BCubic = "plus"
-  Sizes = {302, 303, 502, 305, 203}
-  Cells = {11, 23, 32}
-  Halos = {99, 0, 1, 2, 3, 4}
-  ModeSet = {1212, 402, 204}
+  Sizes = {302, 303, 502, 305}
+  Cells = {11, 23}
+  Halos = {99, 0, 1, 2, 3}
+  ModeSet = {1212, 402}
   NZs = {3}
-  LevelLists = "asc"
+  LevelLists = "single"
   Tabs = {1, 2}
   Analytic = {FALSE, TRUE}
   Family = "mirror"
